@@ -109,7 +109,10 @@ struct XRep {
   int dw = -1;
   bool optional_ = false;   // accepted present or absent (documented soundness exclusion)
 };
-struct XTrace { int tracer; int eid; int func; std::vector<int> args; CallResult res; };
+struct XTrace { int tracer; int eid; int func; std::vector<int> args; CallResult res;
+                // a tracer constructed by a side effect of this very call: the record may go to the tracer that was innermost when
+                // the call began or to the one that is innermost when it ends; with none alive at the beginning it is optional
+                int alt_tracer = -1; bool optional_ = false; };
 struct XNested { int depth, obj, func, arg; CallResult res; };
 struct Expect {
   bool applicable = true;
@@ -388,6 +391,7 @@ class Model {
       if (sp.fx[i] == X_OFF) continue;
       x.clauses.push_back(Clause{C_FX, cand, i, depth});
       if (sp.fx[i] == X_THROW) { res = CallResult{R_SIDE_EXC, cand, ""}; done = true; }
+      else if (sp.fx[i] == X_TRACER) { if (static_cast<int>(tracers.size()) < MAXTR) tracers.push_back(tracer_ids++); }
       else if (sp.fx[i] == X_NEST && depth < 3 && obj[sp.fxa[i][0]].alive) {
         size_t at = x.nested.size();
         x.nested.push_back(XNested{depth, sp.fxa[i][0], sp.fxa[i][1], sp.fxa[i][2], CallResult{}});
@@ -406,7 +410,9 @@ class Model {
       x.oks.erase(x.oks.begin() + static_cast<long>(ok_at));
       x.oks_optional.push_back(cand);
     }
-    if (tr >= 0) x.traces.push_back(XTrace{tr, cand, func, args, res});
+    int tr_end = tracers.empty() ? -1 : tracers.back();
+    if (tr >= 0) { XTrace t{tr, cand, func, args, res}; if (tr_end != tr) t.alt_tracer = tr_end; x.traces.push_back(t); }
+    else if (tr_end >= 0) { XTrace t{tr_end, cand, func, args, res}; t.optional_ = true; x.traces.push_back(t); }
     return res;
   }
 
